@@ -114,7 +114,8 @@ REG = {
                      "end or before its start, resources that never work, boundary efforts (0, 1min, 150000h, 3y ...), unknown resources/tasks, empty "
                      "bodies, zero/odd project durations and timing resolutions, 1-40 leaves on one resource, many leave lines, scenarios x group "
                      "limits, repository fixtures, gaplength/maxgapduration dependencies, macro definitions (nested, with arguments, undefined, self- and "
-                     "mutually recursive), leaves/vacations reaching outside the window, contradictory or out-of-horizon pins, and token-level "
+                     "mutually recursive), leaves/vacations reaching outside the window, contradictory or out-of-horizon pins, random derivations of the repository's own lark grammar (whole files and single statements "
+                     "embedded in a valid project), and token-level "
                      "corruptions (delete/duplicate/swap/truncate/boundary literal) of these; "
                      "distinct = (class, outcome, exception type+site | unscheduled?, warned?, #leaves, #scenarios)",
                 quick=dict(cases=2400, budget_s=200, min_nontrivial=60, case_timeout=60),
